@@ -14,6 +14,9 @@ var e19 = []string{"(*SoftCollection).Add", "(*SoftCollection).Remove", "(*SoftC
 	"(*SoftCollection).Len", "(*SoftCollection).AddAttr", "(*SoftCollection).AddRel", "(*SoftCollection).SetType", "(*SoftCollection).GetType"}
 
 func checkC19(p *Prog, r *Report) {
+	r.rule("C19.set-replaces (imported from C18): no reflect setter on the Wrapper's Set path writes through a pointer held by a struct field; the snapshot SoftCollection.Add takes of a wrapped resource holds the struct's own pointers to nullable scalars, which stay untouched only because Set replaces them")
+	nSR := r.importRules(func(r2 *Report) { checkSetReplaces(p, r2) }, "C19.set-replaces", "C18.set-replaces")
+	r.floor("imported set-replaces obligations", nSR, 2)
 	r.rule(r3RuleText)
 	r.rule("C19.who-writes: the element list SoftCollection.col is stored only by Add (as append(s.col, <one new element>)) and by Remove (as a splice of s.col), nowhere else in the package")
 	r.rule("C19.snapshot: the element Add appends is a SoftResource allocated in Add (never the argument), whose id is the argument's Get(\"id\"), whose Type is the collection's *Type, and which receives, for every attribute and relationship of the argument (full range over Attrs() and Rels()), AddAttr/AddRel with the element and Set under the same name with the value read under that name")
